@@ -246,6 +246,7 @@ def run(prog: Program, res: Result) -> None:  # noqa: PLR0912, PLR0915
     res.rule("C16.R4", "a value obtained from context.resolve(name) without a default may be an Undefined: filters/tags must not test its truth, compare it, stringify or iterate it before an is_undefined()/isinstance() narrowing (under the strict policy that raises for a variable the template never used)")
     from sa.cfg import CFG
     from sa.util import cfg_node_of
+    from sa.util import guarded_by_test
 
     n_res = 0
     for fi in prog.all_functions():
@@ -310,3 +311,196 @@ def run(prog: Program, res: Result) -> None:  # noqa: PLR0912, PLR0915
                 else:
                     res.fail("C16.R4", file=fi.file, line=use.lineno, qualname=fi.qualname, construct=f"{v} {hazard} in `{norm(par, 60)}`", message=f"`{v}` comes from context.resolve() without a default and is {hazard} before any is_undefined()/isinstance() check: with StrictUndefined the render fails with UndefinedError for an optional setting the template never mentions", what=what)
     res.stats["C16.R4.hazardous_uses_examined"] = n_res
+
+    # ------------------------------------------------------------------ R4b lambda results
+    res.rule("C16.R4b", "a value produced by <lambda>.map(context, …) may be an Undefined of the configured class: filters compare, hash, stringify or order it only after an is_undefined() narrowing (each undefined class has its own __eq__/__hash__/__str__, so an un-narrowed use makes the result depend on the policy)")
+    n_lam = 0
+    for fi in prog.all_functions():
+        bound: dict[str, ast.AST] = {}
+        for n in ast.walk(fi.node):
+            it = tgt = None
+            if isinstance(n, (ast.For, ast.AsyncFor, ast.comprehension)):
+                it, tgt = n.iter, n.target
+            if it is None or not any(isinstance(c, ast.Call) and isinstance(c.func, ast.Attribute) and c.func.attr == "map" and c.args and norm(c.args[0]) == "context" for c in ast.walk(it)):
+                continue
+            # zip(left, key.map(...)) / enumerate(key.map(...)): the element that comes from the map call
+            names: list[str] = []
+            if isinstance(tgt, ast.Name):
+                names = [tgt.id]
+            elif isinstance(tgt, ast.Tuple) and isinstance(it, ast.Call) and isinstance(it.func, ast.Name) and it.func.id == "zip":
+                for i, a in enumerate(it.args):
+                    if any(isinstance(c, ast.Call) and isinstance(c.func, ast.Attribute) and c.func.attr == "map" for c in ast.walk(a)) and i < len(tgt.elts) and isinstance(tgt.elts[i], ast.Name):
+                        names.append(tgt.elts[i].id)
+            elif isinstance(tgt, ast.Tuple) and isinstance(it, ast.Call) and isinstance(it.func, ast.Name) and it.func.id == "enumerate" and len(tgt.elts) == 2 and isinstance(tgt.elts[1], ast.Name):
+                names = [tgt.elts[1].id]
+            for nm in names:
+                bound[nm] = n
+        if not bound:
+            continue
+        for v, binder in sorted(bound.items()):
+            scope_root = binder if isinstance(binder, (ast.For, ast.AsyncFor)) else fi.module.parent(binder)
+            for use in ast.walk(scope_root if scope_root is not None else fi.node):
+                if not (isinstance(use, ast.Name) and use.id == v and isinstance(use.ctx, ast.Load)):
+                    continue
+                par = fi.module.parent(use)
+                hazard = None
+                if isinstance(par, ast.Call) and isinstance(par.func, ast.Name) and par.func.id in ("is_undefined", "isinstance", "is_truthy") and par.args and par.args[0] is use:
+                    continue
+                if isinstance(par, ast.Compare) and not all(isinstance(o, (ast.Is, ast.IsNot)) for o in par.ops):
+                    hazard = "compared (==/in call the undefined class's __eq__)"
+                elif isinstance(par, ast.Call) and isinstance(par.func, ast.Name) and par.func.id in ("str", "hash", "repr", "len", "int", "float", "sorted", "min", "max") and use in par.args:
+                    hazard = f"passed to {par.func.id}()"
+                elif isinstance(par, ast.Call) and isinstance(par.func, ast.Attribute) and par.func.attr in ("add", "index", "count", "remove", "lower", "upper") and (use in par.args or par.func.value is use):
+                    hazard = f"hashed/compared through .{par.func.attr}()"
+                elif isinstance(par, ast.Attribute) and par.value is use:
+                    hazard = f"used as `{norm(par)}`"
+                elif isinstance(par, ast.Subscript) and par.slice is use and not isinstance(par.ctx, ast.Store):
+                    hazard = "used as a lookup key"
+                elif isinstance(par, ast.FormattedValue):
+                    hazard = "formatted into a string"
+                if hazard is None:
+                    continue
+                n_lam += 1
+                site = f"{fi.file}:{use.lineno} {fi.qualname}"
+                what = f"lambda result `{v}` is {hazard.split(' (')[0]} only after is_undefined()"
+                ok = None
+                child: ast.AST = use
+                for a in fi.module.ancestors(use):
+                    if isinstance(a, ast.IfExp):
+                        t = norm(a.test)
+                        if (t == f"is_undefined({v})" and any(child is x for x in ast.walk(a.orelse))) or (t == f"not is_undefined({v})" and any(child is x for x in ast.walk(a.body))):
+                            ok = f"`{t}` selects the other arm"
+                    if isinstance(a, ast.BoolOp) and isinstance(a.op, ast.And):
+                        idx = next((i for i, x in enumerate(a.values) if any(child is y for y in ast.walk(x))), None)
+                        if idx and any(norm(x) == f"not is_undefined({v})" for x in a.values[:idx]):
+                            ok = "after `not is_undefined(…) and`"
+                    if isinstance(a, ast.If):
+                        t = norm(a.test)
+                        if (t == f"not is_undefined({v})" and any(child is x for b in a.body for x in ast.walk(b))) or (t == f"is_undefined({v})" and any(child is x for b in a.orelse for x in ast.walk(b))):
+                            ok = f"inside `if {t}`"
+                    if isinstance(a, (ast.ListComp, ast.SetComp, ast.GeneratorExp, ast.DictComp)):
+                        for g in a.generators:
+                            if any(f"not is_undefined({v})" in norm(c) for c in g.ifs) and not any(child is x for c in g.ifs for x in ast.walk(c)):
+                                ok = "comprehension filtered by `not is_undefined(…)`"
+                    if ok or a is fi.node:
+                        break
+                    child = a
+                if ok:
+                    res.ok("C16.R4b", site, what, ok)
+                else:
+                    res.fail("C16.R4b", file=fi.file, line=use.lineno, qualname=fi.qualname, construct=f"{v} {hazard.split(' (')[0]} in `{norm(par, 60)}`", message=f"`{v}` comes from evaluating a lambda per item and is {hazard} without an is_undefined() check: items missing the property collapse, survive or raise depending on which undefined class is configured (Undefined == nil, FalsyStrictUndefined == false, StrictUndefined raises)", what=what)
+    res.floor("C16.R4b", "narrowed uses of lambda results", n_lam, 1)
+
+    # ------------------------------------------------------------------ R5 operand normalisation in the value-semantics helpers
+    res.rule("C16.R5", "the comparison helpers (_eq, _lt, _contains) resolve __liquid__() on an operand before Python's ==, <, in can consult that operand's own __eq__ (an undefined operand then compares as nil under every policy that does not raise)")
+    ex = prog.mod("liquid2/builtin/expressions.py")
+    # operand parameters exempt from normalisation, with the reason
+    r5_exempt = {("_contains", "left"): "the container side: every Undefined class is an (empty or raising) Mapping; membership never calls the container's __eq__"}
+    n_r5 = 0
+    for hname in ("_eq", "_lt", "_contains"):
+        h = ex.functions.get(hname)
+        if h is None:
+            raise AnalysisError(f"{hname} vanished from expressions.py")
+        params = [p for p in h.params() if p not in ("token",)]
+        cfg = CFG(h.node)
+        for cmp_ in ast.walk(h.node):
+            if not isinstance(cmp_, ast.Compare) or all(isinstance(o, (ast.Is, ast.IsNot)) for o in cmp_.ops):
+                continue
+            operands = [cmp_.left] + list(cmp_.comparators)
+            for o in operands:
+                if not (isinstance(o, ast.Name) and o.id in params):
+                    continue
+                n_r5 += 1
+                site = f"{h.file}:{cmp_.lineno} {hname}"
+                what = f"{hname}: operand `{o.id}` of `{norm(cmp_, 50)}` had __liquid__() resolved"
+                if (hname, o.id) in r5_exempt:
+                    res.ok("C16.R5", site, what, "exempt: " + r5_exempt[(hname, o.id)])
+                    continue
+                tn = cfg_node_of(cfg, cmp_)
+                # the normalising statement `<p> = <p>.__liquid__()` lies on every path to the comparison, or the
+                # operand was narrowed to a builtin type (isinstance(p, (str, int, …))) on the way
+                def normalises(n, p=o.id):  # noqa: ANN001, ANN202
+                    nd = getattr(n, "node", None)
+                    if getattr(n, "kind", "") == "test" and nd is not None:
+                        return False
+                    return isinstance(nd, ast.If) is False and isinstance(nd, ast.Assign) and norm(nd) == f"{p} = {p}.__liquid__()"
+
+                def has_hook_test(p=o.id):  # noqa: ANN001, ANN202
+                    return any(n.kind == "test" and n.node is not None and norm(n.node) == f"hasattr({p}, '__liquid__')" for n in cfg.nodes)
+
+                def narrowed(test: ast.AST, p: str = o.id) -> bool | None:
+                    t = norm(test)
+                    if t.startswith(f"isinstance({p}, ") and "Undefined" not in t:
+                        return False
+                    return None
+
+                ok = None
+                if has_hook_test():
+                    # every path either takes the hook (assignment) or skips it because the operand has no __liquid__ - in both
+                    # cases the operand reaching the comparison is not an Undefined (Undefined defines __liquid__)
+                    hook = next(n for n in cfg.nodes if n.kind == "test" and n.node is not None and norm(n.node) == f"hasattr({o.id}, '__liquid__')")
+                    if tn is not None and cfg.all_paths_pass(tn, lambda n, hook=hook: n is hook):
+                        asg_ok = any(m.kind == "stmt" and isinstance(m.node, ast.Assign) and norm(m.node) == f"{o.id} = {o.id}.__liquid__()" for m, lab in hook.succ if lab == "true")
+                        if asg_ok:
+                            ok = f"`if hasattr({o.id}, '__liquid__'): {o.id} = {o.id}.__liquid__()` dominates"
+                if ok is None and tn is not None:
+                    g = guarded_by_test(cfg, tn, narrowed)
+                    if g is not None:
+                        ok = f"narrowed by `{norm(g.node, 60)}`"
+                if ok is None:
+                    # same-expression narrowing: isinstance(p, …) and … p <op> …
+                    for a in h.module.ancestors(cmp_):
+                        if isinstance(a, ast.BoolOp) and isinstance(a.op, ast.And) and any(norm(v).startswith(f"isinstance({o.id}, ") for v in a.values):
+                            ok = "narrowed in the same condition"
+                        if a is h.node:
+                            break
+                if ok:
+                    res.ok("C16.R5", site, what, ok)
+                else:
+                    res.fail("C16.R5", file=h.file, line=cmp_.lineno, qualname=hname, construct=f"{hname}: `{norm(cmp_, 50)}` with raw operand {o.id}", message=f"`{norm(cmp_, 50)}` can run with `{o.id}` still an Undefined object: Python then asks that object's __eq__, which answers differently for Undefined (== nil) and FalsyStrictUndefined (== false) - a falsy-strict render succeeds with output that differs from the default policy", what=what)
+    res.floor("C16.R5", "operand uses in comparison helpers", n_r5, 4)
+
+    # ------------------------------------------------------------------ R6 presence is decided by key, not by value
+    res.rule("C16.R6", "variable lookup decides 'missing' from the failed key/index lookup (KeyError/IndexError/TypeError, `in`), never from the looked-up value: a variable bound to nil/false/0/'' exists")
+    look_fns = []
+    cm = prog.cls("liquid2.utils.chainmap.ReadOnlyChainMap")
+    for nm in ("__getitem__", "get"):
+        if nm in cm.methods:
+            look_fns.append(cm.methods[nm])
+    for nm in ("get", "get_async", "resolve", "get_item", "get_item_async"):
+        if nm in ctx.methods:
+            look_fns.append(ctx.methods[nm])
+    res.floor("C16.R6", "lookup functions", len(look_fns), 6)
+    n_lk = 0
+    for f in look_fns:
+        # names bound from a lookup expression
+        looked: dict[str, ast.AST] = {}
+        for n in ast.walk(f.node):
+            if isinstance(n, ast.Assign) and len(n.targets) == 1 and isinstance(n.targets[0], ast.Name):
+                v = n.value.value if isinstance(n.value, ast.Await) else n.value
+                is_lookup = (isinstance(v, ast.Subscript) and not isinstance(v.slice, ast.Slice)) or (isinstance(v, ast.Call) and isinstance(v.func, ast.Attribute) and v.func.attr in ("get", "get_item", "get_item_async", "pop")) or (isinstance(v, ast.Call) and isinstance(v.func, ast.Name) and v.func.id in ("getitem", "getattr"))
+                if is_lookup:
+                    looked[n.targets[0].id] = v
+                    n_lk += 1
+        for v, src in looked.items():
+            sentinel = None
+            if isinstance(src, ast.Call) and len(src.args) >= 2 and not (isinstance(src.args[1], ast.Constant) and src.args[1].value is None):
+                sentinel = norm(src.args[1])
+            for t in ast.walk(f.node):
+                test = t.test if isinstance(t, (ast.If, ast.IfExp, ast.While)) else None
+                if test is None:
+                    continue
+                bad = None
+                for x in ast.walk(test):
+                    if isinstance(x, ast.Compare) and isinstance(x.left, ast.Name) and x.left.id == v and isinstance(x.ops[0], (ast.Is, ast.IsNot, ast.Eq, ast.NotEq)):
+                        rhs = x.comparators[0]
+                        if sentinel is not None and norm(rhs) == sentinel:
+                            continue
+                        if isinstance(rhs, ast.Constant) and (rhs.value is None or rhs.value in (False, 0, "")):
+                            bad = norm(x)
+                if bad is None and ((isinstance(test, ast.Name) and test.id == v) or (isinstance(test, ast.UnaryOp) and isinstance(test.op, ast.Not) and isinstance(test.operand, ast.Name) and test.operand.id == v)):
+                    bad = norm(test)
+                if bad:
+                    res.fail("C16.R6", file=f.file, line=t.lineno, qualname=f.qualname, construct=f"{f.qualname}: `{bad}` on the looked-up value {v}", message=f"{f.qualname} tests the looked-up value (`{bad}`) to decide whether the key exists: a variable whose value is nil/false/0/'' is treated as missing and strict undefined raises for data that is present", what=f"{f.qualname}: existence of `{v}` decided by the lookup, not its value")
+        res.ok("C16.R6", f"{f.file}:{f.node.lineno} {f.qualname}", f"{f.qualname}: no existence test on a looked-up value", f"{len(looked)} looked-up names")
+    res.floor("C16.R6", "lookup results bound to names", n_lk, 2)
